@@ -57,3 +57,14 @@ Theorem C12_is_finite_correct : forall (Vr : Type) (E : EqDec Vr) (fuel : nat) (
   cfg_wf G -> g_start G <> None -> is_finite fuel G = Some b -> (b = true <-> lang_finite G).
 Proof. exact (@is_finite_correct). Qed.
 Print Assumptions C12_is_finite_correct.
+
+(* get_words() without a bound: the enumeration by increasing length returns once `total_no_modification > current_length / 2`,
+   i.e. after the last processed length L there were k consecutive lengths without any new word for any variable of the normal form,
+   with L + 1 < 2 k. In Chomsky normal form no longer word can then exist: nothing is missed by stopping. *)
+From PFL Require Import Proofs.CfgStopRule.
+Theorem C12_get_words_stop_rule : forall (X : Type) (G : cfg X), is_normal_form G = true ->
+  forall L k : nat, L + 1 < 2 * k -> k <= L ->
+  (forall m, L - k < m <= L -> no_word_of_length G m) ->
+  forall A w, derives G (V A) w -> length w <= L - k.
+Proof. exact (@stop_rule_all_words). Qed.
+Print Assumptions C12_get_words_stop_rule.
